@@ -72,8 +72,25 @@ class DisconnectBoom(Exception):
 
 
 def canon(nodes: dict) -> str:
-    schema = NodeSchema()
-    return json.dumps({str(k): schema.dump(v) for k, v in nodes.items()}, sort_keys=True)
+    """The registry as canonical text (the library's own schema dump).  `nodes` is a registry of the REAL gateway: when
+    it holds something the schema cannot dump (a string where a number belongs, an entry that is not a Node) the text
+    is written attribute by attribute instead - it then equals no file's content, which is for the oracle to judge;
+    the harness does not crash on it."""
+    try:
+        schema = NodeSchema()
+        return json.dumps({str(k): schema.dump(v) for k, v in nodes.items()}, sort_keys=True)
+    except Exception:  # noqa: BLE001
+        def plain(o, depth=0):
+            if type(o) is int:
+                return lib.num(o)
+            if o is None or type(o) in (bool, float, str):
+                return o
+            if isinstance(o, dict):
+                return {lib.safe_repr(k): plain(v, depth + 1) for k, v in o.items()}
+            if hasattr(o, "__dict__") and depth < 6:
+                return {"<" + type(o).__name__ + ">": {k: plain(v, depth + 1) for k, v in vars(o).items()}}
+            return lib.safe_repr(o)
+        return json.dumps({"not dumpable by the schema": plain(dict(nodes))}, sort_keys=True, default=lib.safe_repr)
 
 
 def file_canon(path: str):
@@ -1393,7 +1410,7 @@ async def run_unread(path: str, kind: str, before: int, read: int, late: int, ex
                         "file": "truncated" if content == "" else "holds:1" if content == reg_at_exit else "other",
                         "messages_handled_by_the_body": traffic.handled,
                         "body_ended_with": None if not ended_with else type(ended_with[0]).__name__,
-                        "nodes_in_registry_at_exit": sorted(int(k) for k in _dumped(reg_at_exit))})
+                        "nodes_in_registry_at_exit": lib.key_sorted(int(k) if k.lstrip("-").isdigit() else k for k in _dumped(reg_at_exit))})
             out.append(obs)
             if outcome == "hang":
                 break
